@@ -187,6 +187,20 @@ func (L strLib) eqConst(s *Str, c string) *smt.Term {
 
 // eq: a == b for two symbolic strings.
 func (L strLib) eq(a, b *Str) *smt.Term {
+	// identical leading / trailing slots (same guard and byte terms) cancel out
+	as, bs := a.s, b.s
+	for len(as) > 0 && len(bs) > 0 && as[0].g == bs[0].g && (as[0].b == bs[0].b || as[0].g.IsFalse()) {
+		as, bs = as[1:], bs[1:]
+	}
+	for len(as) > 0 && len(bs) > 0 && as[len(as)-1].g == bs[len(bs)-1].g && (as[len(as)-1].b == bs[len(bs)-1].b || as[len(as)-1].g.IsFalse()) {
+		as, bs = as[:len(as)-1], bs[:len(bs)-1]
+	}
+	if len(as) != len(a.s) {
+		a, b = &Str{s: as}, &Str{s: bs}
+	}
+	if len(a.s) == 0 && len(b.s) == 0 {
+		return L.F.True
+	}
 	if cb, ok := L.concrete(b); ok {
 		return L.eqConst(a, cb)
 	}
